@@ -324,7 +324,7 @@ def r05_4(ctx: Ctx, rep: Report) -> None:  # noqa: C901
         rep.violation("Wildcard._ncw_bits", "limit guard", "no guard `len(<returned bits>) > self.max_ncwb` that raises dominates the return: an over-limit mask is expanded or truncated instead of rejected", where(nb))
     # reached on every normal path from the setter
     ls = ctx.func("Wildcard.line.setter")
-    reach_nb = {f for f in ctx.prog.funcs if nb in ctx.cg.reach([f], include_weak=False)}
+    reach_nb = ctx.cg.reaching(nb)
     rep.instance()
     lcfg = ctx.cfg(ls)
 
@@ -411,7 +411,7 @@ def _is_len_of(x: ast.AST, names: Set[str], env) -> bool:
 def r05_5(ctx: Ctx, rep: Report) -> None:
     rep.rule("R05.5")
     nb = ctx.func("Wildcard._ncw_bits")
-    reach_nb = {f for f in ctx.prog.funcs if nb in ctx.cg.reach([f], include_weak=False)}
+    reach_nb = ctx.cg.reaching(nb)
     n_try = 0
     for f in ctx.prog.funcs:
         for t in own_nodes(f.node):
